@@ -40,6 +40,8 @@ partial def schemaOf (j : Json) : Except String S := do
     match fieldD j "f" Json.null with
     | .str "float" => pure (.strFloat true)
     | .str "double" => pure (.strFloat false)
+    | .str "byte" => pure .strBytes
+    | .str "binary" => pure .strBytes
     | .str f => pure (match intFmtOf f with | some i => .strNum i | none => .str)
     | _ => pure .str
   | "int" => pure (.int (match fieldD j "f" Json.null with | .str f => intFmtOf f | _ => none))
